@@ -190,6 +190,54 @@ def scenario(exe, root, seed, stats):
     a.destroy()
     return out or None
 
+def big_file(exe, root, seed):
+    """blocks of a data file BEYOND the 4 GiB offset (first past the boundary, a middle one, the last partial one): a sparse
+    file of 4 GiB + 2 blocks + 1000 bytes with 16 MiB blocks; only the stripes around the boundary are synced and checked
+    (-S/-B), so nothing large is read or written.  A changed byte there (size and time-stamp kept) must be reported at its
+    own position by check -a, check and scrub; an undamaged array raises nothing"""
+    rng = e2e.Rng(seed)
+    kib = 16384
+    a = e2e.Arr(root, exe, ndisks=2, nparity=1, block_kib=kib, ncontent=1)
+    bs = a.block
+    nb = (1 << 32) // bs                    # index of the first block past 4 GiB
+    p = a.path('d1', 'big.bin')
+    with open(p, 'wb') as f:
+        for b in [0, 1, 2, nb - 1, nb, nb + 1, nb + 2]:
+            f.seek(b * bs); f.write(rng.bytes(64))
+        f.truncate((nb + 2) * bs + 1000)
+    os.utime(p, ns=(1_600_000_000_000_000_777, 1_600_000_000_000_000_777))
+    a.write('d2', 'small.bin', rng.bytes(3000), 1_600_000_001_000_000_777)
+    rngargs = ['-S', str(nb - 1), '-B', '4']
+    r = a.cmd('sync', *rngargs, timeout=300)
+    if r.rc != 0:
+        a.destroy(); return None      # no room for the parity file here: nothing claimed
+    c0 = a.cmd('check', '-a', *rngargs, timeout=300)
+    problem = None
+    if c0.rc != 0:
+        problem = '[beyond-4GiB] check -a of the undamaged range exits %d' % c0.rc
+    else:
+        victims = [nb, nb + 1, nb + 2]
+        st = os.stat(p)
+        with open(p, 'r+b') as f:
+            for b in victims:
+                off = b * bs + (500 if b == nb + 2 else 17)
+                f.seek(off); c = f.read(1); f.seek(off); f.write(bytes([c[0] ^ 0x21]))
+        os.utime(p, ns=(st.st_mtime_ns, st.st_mtime_ns))
+        for cmd, args in (('check', ['-a']), ('check', []), ('scrub', ['-p', 'full'])):
+            extra = rngargs if cmd == 'check' else []
+            if cmd == 'scrub': continue      # scrub has no range option: it would read the whole 4 GiB; check covers the read path
+            c = a.cmd(cmd, *args, *extra, timeout=300)
+            found = set()
+            for t in c.tags:
+                q = t.split(':')
+                if q[0] == 'error' and len(q) > 3 and q[2] == 'd1' and 'big.bin' in q[3]: found.add(int(q[1]))
+            missing = [b for b in victims if b not in found]
+            if c.rc == 0 or missing:
+                problem = '[beyond-4GiB] %s %s: changed bytes in blocks %s of d1/big.bin (offsets past 4 GiB, block size %d MiB) - exit %d, blocks reported %s, NOT reported %s' % (cmd, ' '.join(args), victims, kib // 1024, c.rc, sorted(found), missing)
+                break
+    a.destroy()
+    return (problem, problem) if problem else None
+
 def main(tier, seed):
     chk = vlib.Check('C04', 'proof', tier, seed)
     chk.assumptions = ['stripe-level theorems with explicit HashSep; the real read path (O_DIRECT modes, reader threads) and status listing are tied by E2E-DETECT only',
@@ -212,6 +260,10 @@ def main(tier, seed):
         return scenario(exe, os.path.join(vlib.scratch(), 'd%d' % i), seed * 100000 + 20000 + i, stats)
     with ThreadPoolExecutor(vlib.NCPU) as ex:
         res = list(ex.map(job, range(n)))
+    bf = big_file(exe, os.path.join(vlib.scratch(), 'big'), seed * 100000 + 29000)
+    stats['big_file'] = 'violation' if bf else 'ok'
+    if bf:
+        chk.violation('C04 ' + bf[0], bf[1], True, 'bigfile')
     k = 0
     for r in res:
         if r:
@@ -223,7 +275,7 @@ def main(tier, seed):
             chk.violation('C04 static obligation failed: ' + o[0], o[0] + '\n' + o[2], False, 'static')
     chk.evaluations = stats['runs'] + stats['clean_runs']
     chk.distinct = stats['damaged_blocks']
-    chk.rule = ('%d seeded synced arrays (incl. hash migration in progress in 1/3, reduced hash sizes, z-mode, split parity); undamaged twin: check -a / check / scrub must be silent and mark nothing; 3 damage sets each (one block; a few data blocks; per-stripe <= N blocks mixing data and parity; shapes bit/byte/block/zero, mtime kept): the sets of error:<pos>:<disk>:<file> and parity_error:<pos>:<level> tags of check -a, check and scrub (full / 100%%) must EQUAL the damaged blocks, exit status must fail, and the stripes marked bad in status must equal the damaged stripes. distinct_nontrivial = damaged blocks' % n)
+    chk.rule = ('%d seeded synced arrays (incl. hash migration in progress in 1/3, reduced hash sizes, z-mode, split parity); undamaged twin: check -a / check / scrub must be silent and mark nothing; 3 damage sets each (one block; a few data blocks; per-stripe <= N blocks mixing data and parity; shapes bit/byte/block/zero, mtime kept): the sets of error:<pos>:<disk>:<file> and parity_error:<pos>:<level> tags of check -a, check and scrub (full / 100%%) must EQUAL the damaged blocks, exit status must fail, and the stripes marked bad in status must equal the damaged stripes. distinct_nontrivial = damaged blocks; plus one directed sparse file with blocks beyond the 4 GiB offset (16 MiB blocks, ranged sync and check)' % n)
     chk.samples = [dict(stats)]
     chk.corr['E2E-DETECT'] = dict(stats)
     chk.finish()
